@@ -1,11 +1,15 @@
 import MorfuseModel.EventQueue.Model
+import MorfuseModel.Gen.EventQueueCfg
 import Driver.Util
 /-! driver for the posted-event queue model (property C08); protocol in harness/eventqueue.cpp -/
 namespace Driver.EventQueue
 open Morfuse.EventQueue
 
+/-- `reset B` runs the repaired configuration (the one the theorems are about), `reset B src` the
+    configuration the translator read from the source text (`Gen/EventQueueCfg.lean`) -/
 structure St where
   s : Option State := none
+  cfg : Cfg := Cfg.repaired
 
 def NL : Nat := 3
 def NT : Nat := 4
@@ -34,6 +38,12 @@ def parseAct (tok : String) : Option Act :=
   | ["t", k] => do
     let k ← k.toNat?
     some (.tick k)
+  | ["pp", l, t, d] => do
+    let l ← l.toNat?; let t ← t.toNat?; let d ← d.toNat?
+    if okL l && okT t then some (.postpone l t d) else none
+  | ["pa", l, d] => do
+    let l ← l.toNat?; let d ← d.toNat?
+    if okL l then some (.postponeAll l d) else none
   | _ => none
 
 def parseOp : List String → Option Op
@@ -62,6 +72,17 @@ def parseOp : List String → Option Op
   | ["tick", k] => do
     let k ← k.toNat?
     some (.act (.tick k))
+  | ["postpone", l, t, d] => do
+    let l ← l.toNat?; let t ← t.toNat?; let d ← d.toNat?
+    if okL l && okT t then some (.act (.postpone l t d)) else none
+  | ["postponeall", l, d] => do
+    let l ← l.toNat?; let d ← d.toNat?
+    if okL l then some (.act (.postponeAll l d)) else none
+  | ["processl", l] => do
+    let l ← l.toNat?
+    if okL l then some (.processL l) else none
+  | ["clear"] => some .clear
+  | ["saveload"] => some .saveLoad
   | _ => none
 
 def showQueue (s : State) : String :=
@@ -75,7 +96,11 @@ def step (st : St) (t : List String) : St × String :=
   match t with
   | ["reset", b] =>
     match b.toNat? with
-    | some b => ({ s := some (init b) }, "ok")
+    | some b => ({ s := some (init b), cfg := Cfg.repaired }, "ok")
+    | none => (st, "bad-op")
+  | ["reset", b, "src"] =>
+    match b.toNat? with
+    | some b => ({ s := some (init b), cfg := srcCfg }, "ok")
     | none => (st, "bad-op")
   | _ =>
     match st.s with
@@ -93,16 +118,22 @@ def step (st : St) (t : List String) : St × String :=
         match parseOp t with
         | none => (st, "bad-op")
         | some op =>
-          match Morfuse.EventQueue.step s op with
+          match Morfuse.EventQueue.stepC st.cfg s op with
           | none => (st, "bad-op")
           | some s' =>
+            if s'.h.ub then
+              -- the real code has undefined behaviour here: nothing more can be said about this run
+              ({ st with s := none }, "ub")
+            else
+            let newd := (s'.h.log.take (s'.h.log.length - s.h.log.length)).reverse
             let out := match op with
               | .newl _ | .handler .. => "ok"
-              | .process =>
-                let newd := (s'.h.log.take (s'.h.log.length - s.h.log.length)).reverse
-                "ok d=" ++ showDeliveries newd ++ " " ++ showQueue s'
-              | .act _ => "ok " ++ showQueue s'
-            ({ s := some s' }, out)
+              | .process => "ok d=" ++ showDeliveries newd ++ " " ++ showQueue s'
+              | .processL _ => "ok r=" ++ (if newd.isEmpty then "0" else "1") ++ " d=" ++ showDeliveries newd ++ " " ++ showQueue s'
+              | .act (.postpone ..) | .act (.postponeAll ..) =>
+                "ok r=" ++ (if s'.h.nextOrd == s.h.nextOrd then "0" else "1") ++ " " ++ showQueue s'
+              | .act _ | .clear | .saveLoad => "ok " ++ showQueue s'
+            ({ st with s := some s' }, out)
 
 def main : IO Unit := Driver.runLoop step {}
 end Driver.EventQueue
